@@ -303,6 +303,9 @@ Section Snap.
       destruct g; cbn [fst]; exact G.
   Qed.
 
+  Lemma s_mutate s l : sstep s (fst (mutate sc s l)).
+  Proof. exact (mutate_step sc sstep s_refl s_trans s_get_obj s_set_cache s l). Qed.
+
   Lemma s_apply_one g s p : local_ok pl p -> sstep s (apply_one sc pl g s p).
   Proof.
     intros [Hin Hl]. unfold apply_one. destruct (p_local p) as [l|] eqn:EL; [|apply s_refl].
@@ -312,9 +315,11 @@ Section Snap.
     pose proof (s_policy_apply_filter s (p_id p)) as P.
     destruct (policy_apply_filter sc s (p_id p)) as [s1 f1]. cbn [fst] in P.
     destruct (match f1 with FPass => _ | _ => _ end).
-    - pose proof (s_kubectl_apply s1 l) as K.
-      destruct (kubectl_apply sc s1 l) as [s2 r]. cbn [fst] in K.
-      destruct r; (tr; [exact P|]; tr; [exact K|apply RA]).
+    - pose proof (s_mutate s1 l) as M. destruct (mutate sc s1 l) as [sm okm]. cbn [fst] in M.
+      destruct okm; cbn [negb]; [|tr; [exact P|]; tr; [exact M|apply RA]].
+      pose proof (s_kubectl_apply sm l) as K.
+      destruct (kubectl_apply sc sm l) as [s2 r]. cbn [fst] in K.
+      destruct r; (tr; [exact P|]; tr; [exact M|]; tr; [exact K|apply RA]).
     - tr; [exact P|apply RA].
     - tr; [exact P|apply RA].
   Qed.
